@@ -113,6 +113,42 @@ Definition select_series (mr : bool) (rows : list row) (fetch : list fetch_row) 
   let ss := reshuffle getl (select_loop mr rows) in
   isort out_lt (map (fun s => {| o_labels := getl (ps_fp s); o_fp := ps_fp s; o_samples := ps_samples s |}) ss).
 
+(* ---------- several Selects on one querier (a PromQL query with several selectors / offsets) ----------
+   labelsGetter as the object it is in Go: the window it was created with, the fingerprints resolved so far
+   (fingerprintsHas) and the planned ones (fingerprintToFetch, a set). `answer from to fps` is the database's
+   reply to the labels request for that window.  CLokiQuerier itself keeps only db and ctx: every Select
+   builds its own getter from its own hints.  The querier state below has a slot for a retained getter so
+   that "which getter does a Select use" is part of the model: select_step ignores the slot and stores the
+   getter it built. *)
+Record lgetter := { lg_from : Z; lg_to : Z; lg_has : list fetch_row; lg_plan : list N }.
+Definition new_getter (from_ms to_ms : Z) : lgetter := {| lg_from := from_ms; lg_to := to_ms; lg_has := []; lg_plan := [] |}.
+Definition lg_plan_fp (g : lgetter) (fp : N) : lgetter :=
+  if existsb (N.eqb fp) (lg_plan g) then g
+  else {| lg_from := lg_from g; lg_to := lg_to g; lg_has := lg_has g; lg_plan := lg_plan g ++ [fp] |}.
+Definition lg_fetch (answer : Z -> Z -> list N -> list fetch_row) (g : lgetter) : lgetter :=
+  match lg_plan g with
+  | [] => g                                             (* len(fingerprintToFetch) == 0: no request *)
+  | fps => {| lg_from := lg_from g; lg_to := lg_to g; lg_has := lg_has g ++ answer (lg_from g) (lg_to g) fps; lg_plan := lg_plan g |}
+  end.
+Definition lg_get (g : lgetter) (fp : N) : labels := labels_get (lg_has g) fp.
+
+Record select_call := { cl_mr : bool; cl_from : Z; cl_to : Z; cl_rows : list row }.   (* hints.Start / End in ms *)
+Definition qstate := option lgetter.
+Definition select_step (answer : Z -> Z -> list N -> list fetch_row) (st : qstate) (c : select_call) : qstate * list out_series :=
+  let g0 := new_getter (cl_from c) (cl_to c) in                          (* newLabelsGetter(hints.Start, hints.End, ..) *)
+  let ss := select_loop (cl_mr c) (cl_rows c) in
+  let g1 := fold_left lg_plan_fp (map ps_fp ss) g0 in                    (* Plan at every series opened *)
+  let g2 := lg_fetch answer g1 in
+  let getl := lg_get g2 in
+  (Some g2,
+   isort out_lt (map (fun s => {| o_labels := getl (ps_fp s); o_fp := ps_fp s; o_samples := ps_samples s |})
+                     (reshuffle getl ss))).
+Fixpoint run_selects (answer : Z -> Z -> list N -> list fetch_row) (st : qstate) (cs : list select_call) : list (list out_series) :=
+  match cs with
+  | [] => []
+  | c :: r => let '(st', out) := select_step answer st c in out :: run_selects answer st' r
+  end.
+
 (* ================= comparison / specification oracles for generated case files ================= *)
 Definition str_eqb := String.eqb.
 Fixpoint list_eqb {A} (eq : A -> A -> bool) (a b : list A) : bool :=
